@@ -118,11 +118,22 @@ Record tstate := TState {
   t_waiters : list twaiter;          (* arrival order *)
   t_now : Z;
   t_pending : list str;              (* names unlocked by name over IPC since the last probe *)
+  t_mem : list (str * (Z * Z));      (* C13: per lock name, the size of the lock object and the instant of the last
+                                        observed operation that reached it (one entry per name) *)
   t_fail : list (nat * string)       (* (event index, tag) of failed checks, newest first *)
 }.
-#[global] Instance eta_tstate : Settable _ := settable! TState <t_holds; t_waiters; t_now; t_pending; t_fail>.
+#[global] Instance eta_tstate : Settable _ := settable! TState <t_holds; t_waiters; t_now; t_pending; t_mem; t_fail>.
 
-Definition t_init : tstate := TState [] [] 0 [] [].
+Definition t_init : tstate := TState [] [] 0 [] [] [].
+
+(** C13: what the oracle remembers about lock objects. An operation that reaches the lock object of a name
+    (a Lock/TryLock that is granted, parked or refused as busy; an Unlock of a key of that name that succeeds or
+    fails with InvalidLockKey; a release at the end of a session or of a lease) refreshes its lastAccessed, and the
+    collector removes an object only when it has been idle for MORE than LockGcMinIdle at a tick. *)
+Definition mem_lookup (name : str) (m : list (str * (Z * Z))) : option (Z * Z) :=
+  snd <$> head (List.filter (λ e, bool_decide (fst e = name)) m).
+Definition mem_upd (name : str) (v : Z * Z) (m : list (str * (Z * Z))) : list (str * (Z * Z)) :=
+  (name, v) :: List.filter (λ e, negb (bool_decide (fst e = name))) m.
 
 Definition flag (i : nat) (tag : string) (ok : bool) (t : tstate) : tstate :=
   if ok then t else t <| t_fail := (i, tag) :: t_fail t |>.
@@ -174,7 +185,10 @@ Definition t_waiter_done (cfg : config) (i : nat) (wid : nat) (at_ : Z) (r : res
       | RLock true key e =>
           let t2 := flag i "C14:grant-with-error" (bool_decide (e = None)) t1 in
           let t3 := flag i "C03:not-fifo" (match waiters_on (tw_name w) t0 with w0 :: _ => bool_decide (tw_id w0 = wid) | [] => false end) t2 in
-          let t4 := flag i "C01:grant-over-capacity" (count_name (tw_name w) t0 <? tw_size w) t3 in
+          (* a hold released by an admin unlock by name that is not attributed yet is still in the list *)
+          let t4 := flag i "C01:grant-over-capacity"
+                      (count_name (tw_name w) t0
+                       - Z.of_nat (length (List.filter (λ n, bool_decide (n = tw_name w)) (t_pending t0))) <? tw_size w) t3 in
           t4 <| t_holds := t_holds t4 ++ [Hold (tw_name w) key (tw_size w) (tw_sid w) (lease at_ (tw_lt w))] |>
       | RLock false _ e =>
           let dl := match tw_wt w with Some v => if 0 <? v then Some (tw_issued w + v * second) else None | None => None end in
@@ -193,12 +207,12 @@ Fixpoint insert_by_time (o : nat * Z * resp) (l : list (nat * Z * resp)) : list 
   | [] => [o]
   | x :: l' => if (snd (fst o)) <? (snd (fst x)) then o :: l else x :: insert_by_time o l'
   end.
-(** completions in time order; at one instant, give-ups before grants *)
+(** completions in time order; at one instant, give-ups before grants, each class in the order of emission *)
 Definition sort_completions (outs : list out) : list (nat * Z * resp) :=
   let cs := omap (λ o, match o with OWaiter w a r => Some (w, a, r) | _ => None end) outs in
   let gaveup := List.filter (λ c, negb (ok_bit (snd c))) cs in
   let granted := List.filter (λ c, ok_bit (snd c)) cs in
-  fold_right insert_by_time [] (granted ++ gaveup).
+  fold_left (λ acc c, insert_by_time c acc) (gaveup ++ granted) [].
 
 Definition t_completions (cfg : config) (i : nat) (cause : option err) (outs : list out) (t : tstate) : tstate :=
   fold_left (λ t '(w, a, r), t_waiter_done cfg i w a r cause t) (sort_completions outs) t.
@@ -227,16 +241,25 @@ Definition t_acquire (cfg : config) (i : nat) (blocking : bool) (wid : nat) (sid
       | None =>
           let sz := default 1 size in
           let free := (count_name name t <? sz) && bool_decide (waiters_on name t = []) in
+          (* C13: the lock object of this name was reached recently with another size: it cannot have been
+             collected yet, so this request had to be refused with LockSizeMismatch *)
+          let mem_ok := match mem_lookup name (t_mem t) with
+                        | Some (msz, last) => bool_decide (msz = sz) || (c_gc_minidle cfg <? t_now t - last)
+                        | None => true
+                        end in
           match r with
           | RLock true key _ =>
+              let t := flag i "C13:collected-before-min-idle" mem_ok t in
               let t := flag i "C01:grant-over-capacity" (count_name name t <? sz) t in
               t <| t_holds := t_holds t ++ [Hold name key sz (default [] sid) (lease (t_now t) lt)] |>
           | RLock false _ None =>
+              let t := flag i "C13:collected-before-min-idle" mem_ok t in
               flag i "C02:free-lock-reported-busy" (negb free && negb blocking) t
           | RLock false _ (Some e) =>
               (* an object left over from earlier holds may refuse another size; nothing else may fail *)
               flag i "C13:valid-request-failed" (bool_decide (e = ELockSizeMismatch) && bool_decide (known_size name t = None)) t
           | RBlocked =>
+              let t := flag i "C13:collected-before-min-idle" mem_ok t in
               let t := flag i "C02:free-lock-reported-busy" (negb free && blocking) t in
               t <| t_waiters := t_waiters t ++ [TWaiter wid name (default [] sid) sz lt (t_now t) wt] |>
           | _ => flag i "C14:bad-response" false t
@@ -282,7 +305,7 @@ Definition t_probe (cfg : config) (i : nat) (outs : list out) (t : tstate) : tst
   | _, _, _ => flag i "PROBE:missing" false t
   end.
 
-Definition track_step (cfg : config) (i : nat) (ev : event) (outs : list out) (t : tstate) : tstate :=
+Definition track_step0 (cfg : config) (i : nat) (ev : event) (outs : list out) (t : tstate) : tstate :=
   match ev with
   | EConnect _ => t
   | EDisconnect sid =>
@@ -347,15 +370,56 @@ Definition track_step (cfg : config) (i : nat) (ev : event) (outs : list out) (t
                 flag i "C18:unlock-of-absent-name" (bool_decide (r = None) && bool_decide (e = Some ELockDoesNotExist)) t
               else
                 let t := flag i "C18:unlock-by-name-failed" (bool_decide (r = Some true)) t in
-                let t := t_completions cfg i None outs t in
+                (* the released hold goes before the completions are read; if several holds have that name, which one
+                   went is resolved at the next probe, and the capacity check discounts it meanwhile *)
                 match List.filter (λ h, bool_decide (h_name h = name)) (t_holds t) with
-                | [h] => drop_hold name (h_key h) t
-                | _ => t <| t_pending := name :: t_pending t |>
+                | [h] => t_completions cfg i None outs (drop_hold name (h_key h) t)
+                | _ => t_completions cfg i None outs (t <| t_pending := name :: t_pending t |>)
                 end
           end
       | None => flag i "C18:no-reply" false t
       end
   end.
+
+(** C13: the lock objects reached by the event, read off the event, its outputs and the tracker state before it *)
+Definition size_hint (name : str) (t : tstate) : option Z :=
+  match known_size name t with Some k => Some k | None => fst <$> mem_lookup name (t_mem t) end.
+Definition mem_touch (name : str) (t : tstate) : list (str * (Z * Z)) :=
+  match size_hint name t with Some k => mem_upd name (k, t_now t) (t_mem t) | None => t_mem t end.
+
+Definition mem_step (cfg : config) (ev : event) (outs : list out) (t : tstate) : list (str * (Z * Z)) :=
+  match ev with
+  | ETryLock _ name size _ _ | ELock _ _ name size _ _ _ =>
+      match first_resp outs with
+      | Some (RLock true _ _) | Some RBlocked | Some (RLock false _ None) => mem_upd name (default 1 size, t_now t) (t_mem t)
+      | _ => t_mem t
+      end
+  | EUnlock _ name _ =>
+      match first_resp outs with
+      | Some (RUnlock true _) | Some (RUnlock false (Some ELockInvalidLockKey)) => mem_touch name t
+      | _ => t_mem t
+      end
+  | EIpcUnlock name _ =>
+      match head (omap (λ o, match o with OIpcUnlock r e => Some (r, e) | _ => None end) outs) with
+      | Some (Some true, _) | Some (_, Some ELockInvalidLockKey) => mem_touch name t
+      | _ => t_mem t
+      end
+  | EDisconnect sid =>
+      if c_noclear cfg then t_mem t else
+      fold_left (λ m h, mem_upd (h_name h) (h_size h, t_now t) m)
+                (List.filter (λ h, bool_decide (h_sid h = sid)) (t_holds t)) (t_mem t)
+  | EAdvance dt =>
+      (* a lease that ends releases its hold at the deadline *)
+      let now' := t_now t + Z.max 0 dt in
+      fold_left (λ m h, match h_deadline h with
+                        | Some d => if d <=? now' then mem_upd (h_name h) (h_size h, d) m else m
+                        | None => m end) (t_holds t) (t_mem t)
+  | ERestart _ => []
+  | _ => t_mem t
+  end.
+
+Definition track_step (cfg : config) (i : nat) (ev : event) (outs : list out) (t : tstate) : tstate :=
+  track_step0 cfg i ev outs t <| t_mem := mem_step cfg ev outs t |>.
 
 Fixpoint track (cfg : config) (i : nat) (h : list (event * list out)) (t : tstate) : tstate :=
   match h with
